@@ -23,7 +23,7 @@ def _run(args, timeout=600):
         return {"outcome": "error", "stdout": p.stdout[-1500:], "stderr": p.stderr[-1500:]}
 
 
-_CONCRETE_FIXTURES = ("Prov", "CS")
+_CONCRETE_FIXTURES = ("Prov", "CS", "Sqlite")
 _lemma_anns = {}
 
 
